@@ -372,14 +372,14 @@ func (r *connRunner) logRecv(c string, raw []byte) {
 					ev["kind"] = "error"
 				}
 				ev["err"] = abstractStr(e)
-				if strings.HasPrefix(e, "org.varlink.service.") {
+				stdKeys := map[string]string{"org.varlink.service.InterfaceNotFound": "interface", "org.varlink.service.MethodNotFound": "method",
+					"org.varlink.service.MethodNotImplemented": "method", "org.varlink.service.InvalidParameter": "parameter"}
+				if want, isStd := stdKeys[e]; isStd {
 					// the single string parameter of a standard error
 					if len(params) == 1 {
 						for k := range params {
 							s, _ := str(k)
 							ev["arg"] = abstractStr(s)
-							want := map[string]string{"InterfaceNotFound": "interface", "MethodNotFound": "method",
-								"MethodNotImplemented": "method", "InvalidParameter": "parameter"}[strings.TrimPrefix(e, "org.varlink.service.")]
 							if k != want {
 								ev["arg"] = "wrong-key:" + k
 							}
